@@ -223,28 +223,104 @@ def loopJoin (jt : JoinType) (truth : Row → Bool) (nl nr : Nat) (L R : List Ro
   | .left => loopLeft truth nr L R
   | .right => loopRight truth nl L R
 
+/-- the executor's test for a table id used twice: the id of the right table (read off its first
+field; all its fields carry the same one) is looked up among the fields gathered so far -/
+def headClash (lFields rFields : List Field) : Bool :=
+  match rFields.head? with
+  | some f0 => lFields.any (·.tableId == f0.tableId)
+  | none => false
+
+/-- the relational definition's test: some field of the right table carries a table id already
+present on the left -/
+def anyClash (lFields rFields : List Field) : Bool :=
+  rFields.any fun g => lFields.any (·.tableId == g.tableId)
+
+/-- the join step of `nestedLoopJoin`, unfolded once: the test, then the loops -/
+theorem nestedLoopJoin_join_unfold (fetch : Bytes → Option Table) (l : TableRef) (jt : JoinType)
+    (r : TableName) (on : Cond) (lRows rRows : List Row) (lFields rFields : List Field)
+    (hl : nestedLoopJoin fetch l = .ok (lRows, lFields))
+    (hr : fetchTable fetch r = .ok (rRows, rFields)) :
+    nestedLoopJoin fetch (.join l jt r on) =
+      if headClash lFields rFields = true then X.err .fieldAmbiguous
+      else (do
+        let rows ← match jt with
+          | .inner => joinOuter on (lFields ++ rFields) lRows rRows (fun lr rr => lr ++ rr) none
+          | .left => joinOuter on (lFields ++ rFields) lRows rRows (fun lr rr => lr ++ rr) (some fun lr => lr ++ List.replicate rFields.length .null)
+          | .right => joinOuter on (lFields ++ rFields) rRows lRows (fun rr lr => lr ++ rr) (some fun rr => List.replicate lFields.length .null ++ rr)
+        pure (rows, lFields ++ rFields)) := by
+  simp only [nestedLoopJoin, hl, hr, bind_ok]
+  rfl
+
+/-- a clash seen on the head field is a clash seen on some field -/
+theorem anyClash_of_headClash {lFields rFields : List Field}
+    (h : headClash lFields rFields = true) : anyClash lFields rFields = true := by
+  unfold headClash at h
+  unfold anyClash
+  cases rFields with
+  | nil => cases h
+  | cons g rest => simp only [List.head?_cons] at h; simp only [List.any_cons, h, Bool.true_or]
+
+/-- all fields of one table carry one table id: a clash on any field is a clash on the head -/
+theorem headClash_of_anyClash {lFields rFields : List Field}
+    (hid : ∀ g ∈ rFields, ∀ g' ∈ rFields, g.tableId = g'.tableId)
+    (h : anyClash lFields rFields = true) : headClash lFields rFields = true := by
+  unfold anyClash at h
+  obtain ⟨g, hg, hc⟩ := List.any_eq_true.mp h
+  unfold headClash
+  cases rFields with
+  | nil => cases hg
+  | cons g0 rest =>
+    simp only [List.head?_cons]
+    rw [hid g0 List.mem_cons_self g hg]
+    exact hc
+
+/-- the fields of a fetched table all carry the same table id -/
+theorem fetchTable_one_id {fetch : Bytes → Option Table} {t : TableName} {rows : List Row}
+    {fields : List Field} (h : fetchTable fetch t = .ok (rows, fields)) :
+    ∀ g ∈ fields, g.tableId = t.alias.getD t.name := by
+  obtain ⟨tbl, _, _, hf, _, _⟩ := fetchTable_alias fetch t rows fields h
+  intro g hg
+  rw [hf] at hg
+  obtain ⟨c, _, rfl⟩ := List.mem_map.mp hg
+  rfl
+
+/-- on a fetched table the executor's test and the relational definition's test agree -/
+theorem headClash_eq_anyClash {fetch : Bytes → Option Table} {t : TableName} {rows : List Row}
+    {rFields : List Field} (h : fetchTable fetch t = .ok (rows, rFields)) (lFields : List Field) :
+    headClash lFields rFields = anyClash lFields rFields := by
+  rw [Bool.eq_iff_iff]
+  exact ⟨anyClash_of_headClash, headClash_of_anyClash fun g hg g' hg' =>
+    (fetchTable_one_id h g hg).trans (fetchTable_one_id h g' hg').symm⟩
+
 /-- One step of `nestedLoopJoin`: the result for `l JOIN r ON on` in terms of the result for
-`l`, the fetched table `r` and the equations of items 2 and 3. -/
+`l`, the fetched table `r` (whose table id is not yet in use: `hd`) and the equations of items 2
+and 3. -/
 theorem nestedLoopJoin_join (fetch : Bytes → Option Table) (l : TableRef) (jt : JoinType)
     (r : TableName) (on : Cond) (lRows rRows : List Row) (lFields rFields : List Field)
     (truth : Row → Bool)
     (hl : nestedLoopJoin fetch l = .ok (lRows, lFields))
     (hr : fetchTable fetch r = .ok (rRows, rFields))
+    (hd : anyClash lFields rFields = false)
     (h : ∀ a ∈ lRows, ∀ b ∈ rRows,
       evaluate on (lFields ++ rFields) (a ++ b) = .ok (.bool (truth (a ++ b)))) :
     nestedLoopJoin fetch (.join l jt r on) =
       .ok (loopJoin jt truth lFields.length rFields.length lRows rRows, lFields ++ rFields) := by
+  have hh : headClash lFields rFields = false := by
+    cases hc : headClash lFields rFields with
+    | false => rfl
+    | true => rw [anyClash_of_headClash hc] at hd; cases hd
+  rw [nestedLoopJoin_join_unfold fetch l jt r on lRows rRows lFields rFields hl hr, hh]
   cases jt with
   | inner =>
-    simp only [nestedLoopJoin, hl, hr, bind_ok, pure_eq_ok,
+    simp only [Bool.false_eq_true, if_false, bind_ok, pure_eq_ok,
       inner_join_eq on _ lRows rRows truth h]
     rfl
   | left =>
-    simp only [nestedLoopJoin, hl, hr, bind_ok, pure_eq_ok,
+    simp only [Bool.false_eq_true, if_false, bind_ok, pure_eq_ok,
       left_join_eq on _ lRows rRows truth rFields.length h]
     rfl
   | right =>
-    simp only [nestedLoopJoin, hl, hr, bind_ok, pure_eq_ok,
+    simp only [Bool.false_eq_true, if_false, bind_ok, pure_eq_ok,
       right_join_eq on _ lRows rRows truth lFields.length h]
     rfl
 
@@ -448,12 +524,13 @@ theorem matched_any_right (tr : Row → Bool) (L R : List Row) (b : Row) (hb : b
   · rintro ⟨a, ha, ht⟩
     exact ⟨(a, b), ⟨⟨a, ha, b, hb, rfl⟩, ht⟩, rfl⟩
 
-/-- what a successful `Spec.fromRows` on a join says -/
-theorem fromRows_join_some {fetch : Bytes → Option Table} {l : TableRef} {jt : JoinType}
+/-- what a successful `Spec.fromRows` on a join says, with the fact that the table id of the right
+table is not in use on the left -/
+theorem fromRows_join_some' {fetch : Bytes → Option Table} {l : TableRef} {jt : JoinType}
     {r : TableName} {on : Cond} {rowsS : List Row} {fieldsS : List Field}
     (h : Spec.fromRows fetch (.join l jt r on) = some (rowsS, fieldsS)) :
     ∃ L lf R rf, Spec.fromRows fetch l = some (L, lf) ∧ Spec.fieldsOf fetch r = some (R, rf) ∧
-      fieldsS = lf ++ rf ∧
+      fieldsS = lf ++ rf ∧ anyClash lf rf = false ∧
       (∀ a ∈ L, ∀ b ∈ R, evaluate on (lf ++ rf) (a ++ b) =
         .ok (.bool (truthOf on (lf ++ rf) (a ++ b)))) ∧
       rowsS = relJoin jt (truthOf on (lf ++ rf)) lf.length rf.length L R := by
@@ -467,6 +544,12 @@ theorem fromRows_join_some {fetch : Bytes → Option Table} {l : TableRef} {jt :
     | some q =>
       obtain ⟨R, rf⟩ := q
       simp only [hL, hR, Option.bind_eq_bind, Option.bind_some] at h
+      cases hc : anyClash lf rf with
+      | true => unfold anyClash at hc; simp [hc] at h
+      | false =>
+      have hc' := hc
+      unfold anyClash at hc'
+      simp only [hc', Bool.false_eq_true, if_false] at h
       cases hT : (L.flatMap fun a => R.map fun b => (a, b)).mapM
           (fun (x : Row × Row) => Spec.holds on (lf ++ rf) (x.1 ++ x.2)) with
       | none => simp [hT] at h
@@ -481,7 +564,7 @@ theorem fromRows_join_some {fetch : Bytes → Option Table} {l : TableRef} {jt :
           intro a ha b hb
           exact holds_eq_some (hall (a, b)
             (List.mem_flatMap.mpr ⟨a, ha, List.mem_map.mpr ⟨b, hb, rfl⟩⟩))
-        refine ⟨L, lf, R, rf, rfl, rfl, ?_, hev, ?_⟩
+        refine ⟨L, lf, R, rf, rfl, rfl, ?_, hc, hev, ?_⟩
         · cases h; rfl
         · rw [zip_map_filterMap] at h
           cases h
@@ -500,6 +583,18 @@ theorem fromRows_join_some {fetch : Bytes → Option Table} {l : TableRef} {jt :
             congr 2
             exact List.filter_congr fun b hb => by rw [matched_any_right _ L R b hb]
 
+/-- what a successful `Spec.fromRows` on a join says -/
+theorem fromRows_join_some {fetch : Bytes → Option Table} {l : TableRef} {jt : JoinType}
+    {r : TableName} {on : Cond} {rowsS : List Row} {fieldsS : List Field}
+    (h : Spec.fromRows fetch (.join l jt r on) = some (rowsS, fieldsS)) :
+    ∃ L lf R rf, Spec.fromRows fetch l = some (L, lf) ∧ Spec.fieldsOf fetch r = some (R, rf) ∧
+      fieldsS = lf ++ rf ∧
+      (∀ a ∈ L, ∀ b ∈ R, evaluate on (lf ++ rf) (a ++ b) =
+        .ok (.bool (truthOf on (lf ++ rf) (a ++ b)))) ∧
+      rowsS = relJoin jt (truthOf on (lf ++ rf)) lf.length rf.length L R := by
+  obtain ⟨L, lf, R, rf, hL, hR, hf, _, hev, hrows⟩ := fromRows_join_some' h
+  exact ⟨L, lf, R, rf, hL, hR, hf, hev, hrows⟩
+
 /-- The executor's FROM clause is the relational definition, as a multiset: whenever the spec
 is defined, the nested loops succeed with the same header and a permutation of the rows. -/
 theorem nestedLoopJoin_perm_fromRows (fetch : Bytes → Option Table) (tr : TableRef)
@@ -511,11 +606,11 @@ theorem nestedLoopJoin_perm_fromRows (fetch : Bytes → Option Table) (tr : Tabl
   | table t =>
     exact ⟨rowsS, fieldsS, fetchTable_of_fieldsOf (by simpa [Spec.fromRows] using h), rfl, .refl _⟩
   | join l jt r on ih =>
-    obtain ⟨L, lf, R, rf, hL, hR, rfl, hev, rfl⟩ := fromRows_join_some h
+    obtain ⟨L, lf, R, rf, hL, hR, rfl, hd, hev, rfl⟩ := fromRows_join_some' h
     obtain ⟨lM, lfM, hlM, hf, hp⟩ := ih L lf hL
     rw [hf] at hlM
     have hstep := nestedLoopJoin_join fetch l jt r on lM R lf rf (truthOf on (lf ++ rf)) hlM
-      (fetchTable_of_fieldsOf hR)
+      (fetchTable_of_fieldsOf hR) hd
       (fun a ha b hb => hev a (hp.mem_iff.mp ha) b hb)
     exact ⟨_, _, hstep, rfl, join_step_perm _ jt _ _ R hp⟩
 
@@ -534,9 +629,9 @@ theorem nestedLoopJoin_eq_fromRows_inner (fetch : Bytes → Option Table) (tr : 
   | join l jt r on ih =>
     simp only [allInner, Bool.and_eq_true, beq_iff_eq] at hin
     obtain ⟨rfl, hl⟩ := hin
-    obtain ⟨L, lf, R, rf, hL, hR, rfl, hev, rfl⟩ := fromRows_join_some h
+    obtain ⟨L, lf, R, rf, hL, hR, rfl, hd, hev, rfl⟩ := fromRows_join_some' h
     exact nestedLoopJoin_join fetch l .inner r on L R lf rf (truthOf on (lf ++ rf))
-      (ih hl L lf hL) (fetchTable_of_fieldsOf hR) hev
+      (ih hl L lf hL) (fetchTable_of_fieldsOf hR) hd hev
 
 /-! ### concrete instances
 
@@ -674,7 +769,10 @@ open Mkdb.Exec Mkdb.Exec.JoinP
 #print axioms inner_join_count
 #print axioms left_join_eq
 #print axioms right_join_eq
+#print axioms nestedLoopJoin_join_unfold
+#print axioms headClash_eq_anyClash
 #print axioms nestedLoopJoin_join
+#print axioms fromRows_join_some'
 #print axioms nestedLoopJoin_perm_fromRows
 #print axioms nestedLoopJoin_eq_fromRows_inner
 #print axioms loopLeft_perm
